@@ -31,6 +31,14 @@ const rule = "a case is one logger life in a fresh process: 1-32 producer gorout
 	"Shutdown after all producers finished or after a PRNG-chosen number of returned calls. Families: free, free-hold, sched, sched-withheld, small, squeeze (GOMAXPROCS 1-2 + busy goroutines during Shutdown), twin (plain lines through a nil tracer and tracer submissions with the same call site and main text logged back to back, 1-3 goroutines, writer triggered only after everything is queued), idle (free-running writer; at every barrier the adapter is held inside the final Write of a batch while more lines are logged, then released, then an idle verdict from a goroutine dump). In 2 of 5 cases 2-3 goroutines call Shutdown concurrently. " +
 	"distinct = distinct scenario signatures (family, build, producers, lines, levels per phase, shutdown moment); non-trivial = at least 10 log calls and at least one line delivered"
 
+// Watchdogs. A case normally takes 0.05-5 s (adapter delays are capped at ~3 s per
+// case); firing is inconclusive, never a verdict.
+const (
+	childTimeout     = 100 * time.Second
+	retryTimeout     = 45 * time.Second
+	maxRetriesPerRun = 2
+)
+
 // functions whose races are about the buffer / wake-up protocol of the property
 var raceScope = []string{"portbase/log.log", "portbase/log.writer", "portbase/log.finalizeWriting", "portbase/log.(*ContextTracer).Submit",
 	"portbase/log.Start", "portbase/log.Shutdown", "portbase/log.writerManager", "portbase/log.startWriter", "portbase/log.TriggerWriter"}
@@ -68,7 +76,7 @@ func main() {
 			bin = cfg.BinRace
 		}
 		scs = append(scs, sc)
-		specs = append(specs, vlib.ChildSpec{Name: name, Bin: bin, Spec: sc, Timeout: 4 * time.Minute, Race: sc.Build == "race"})
+		specs = append(specs, vlib.ChildSpec{Name: name, Bin: bin, Spec: sc, Timeout: childTimeout, Race: sc.Build == "race"})
 	}
 	if cfg.Replay != "" {
 		var doc struct {
@@ -169,17 +177,20 @@ func main() {
 			}
 		}
 		if c.TimedOut || (!c.Done && c.Signal == "killed") {
-			// watchdog: not a verdict. Re-run with the same spec (up to 2 more times).
-			if attempt < 2 && cfg.Replay == "" {
+			// watchdog: not a verdict. Re-run the same spec once, with a shorter
+			// watchdog, and only a few times per run: a tree on which children hang must
+			// not multiply the run time (retries run while the other results wait).
+			if attempt < 1 && retried < maxRetriesPerRun && cfg.Replay == "" {
 				retried++
 				cs := specs[i]
+				cs.Timeout = retryTimeout
 				cs.Name = fmt.Sprintf("%s-retry%d", cs.Name, attempt+1)
 				r2 := vlib.RunChild(cfg, cs)
 				handle(i, r2, attempt+1)
 				_ = os.RemoveAll(r2.Dir)
 				return
 			}
-			rep.Inconclusive("case %s (%s) hit the %s watchdog %d times; stderr tail: %s", c.Name, sc.Family, specs[i].Timeout, attempt+1, tailLines(c.StderrTail(6000), 40))
+			rep.Inconclusive("case %s (%s) hit the watchdog (%s, retry %s; run %d times); stderr tail: %s", c.Name, sc.Family, childTimeout, retryTimeout, attempt+1, tailLines(c.StderrTail(6000), 40))
 			return
 		}
 		if !c.Done {
@@ -210,6 +221,8 @@ func main() {
 		rep.Floor(rep.Counter("twin_plain_and_submission_arrived_adjacent") >= 100, "twin_plain_and_submission_arrived_adjacent=%d", rep.Counter("twin_plain_and_submission_arrived_adjacent"))
 		rep.Floor(rep.Counter("idle_rounds_line_logged_during_final_write") >= 30 && rep.Counter("idle_points_judged") >= 60, "idle rounds=%d idle points=%d", rep.Counter("idle_rounds_line_logged_during_final_write"), rep.Counter("idle_points_judged"))
 		rep.Floor(rep.Counter("cases_concurrent_shutdown_calls_with_lines_pending") >= 20, "cases_concurrent_shutdown_calls_with_lines_pending=%d", rep.Counter("cases_concurrent_shutdown_calls_with_lines_pending"))
+		rep.Floor(rep.Counter("submissions_after_plain_lines_of_same_goroutine") >= 200, "submissions_after_plain_lines_of_same_goroutine=%d", rep.Counter("submissions_after_plain_lines_of_same_goroutine"))
+		rep.Floor(rep.Counter("global_level_changes_with_pkg_levels_untouched") >= 8, "global_level_changes_with_pkg_levels_untouched=%d", rep.Counter("global_level_changes_with_pkg_levels_untouched"))
 		rep.Floor(rep.Counter("cases_shutdown_mid") >= 5, "cases_shutdown_mid=%d", rep.Counter("cases_shutdown_mid"))
 		rep.Floor(rep.Counter("lines_below_level") >= 1000 && rep.Counter("lines_must") >= 10000, "lines: must=%d below=%d", rep.Counter("lines_must"), rep.Counter("lines_below_level"))
 	}
